@@ -4,7 +4,8 @@ from vlib.core import Case
 PROP = "C08"
 SPEC_MODE = "spec"
 KEEP_PREFIX = 1
-SIZES = {"quick": 400, "thorough": 6000}
+SIZES = {"quick": 4000, "thorough": 80000}
+BATCH = 4000
 RULE = ("op sequences over random (sampleCount, interval) geometries, 1-3 derived views (valid and invalid), events "
         "pass/block/complete/error/rt + concurrency samples, time steps from {0,1,L-1,L,L+1,view,n*L,>array}; start times incl. "
         "near zero; non-trivial = at least one slot reset happened (time crossed a full array cycle with an add after it) and "
@@ -42,6 +43,13 @@ def gen_case(rng, cid):
     if not views:
         ops.append(f"view 1 {I}")
         views.append((1, I))
+    nodes = []
+    def add_node():
+        sc, Iv = rng.choice(views)
+        ops.append(f"node {sc} {Iv}")
+        nodes.append((sc, Iv))
+    if rng.random() < 0.6:
+        add_node()
     now = t0
     nops = rng.randint(10, 120)
     for _ in range(nops):
@@ -60,6 +68,15 @@ def gen_case(rng, cid):
             ops.append(f"add {ev} {amt}")
         elif r < 0.68:
             ops.append(f"conc {rng.choice([0, 1, 2, 7, -1, rng.randint(0, 50)])}")
+        elif r < 0.70 and len(nodes) < 3 and rng.random() < 0.3:
+            add_node()
+        elif r < 0.80 and nodes:
+            k = rng.randrange(len(nodes))
+            g = rng.choice(["sum", "qps", "prevqps", "maxavg", "minrt", "maxconc", "avgrt", "avgrt"])
+            if g in ("sum", "qps", "prevqps", "maxavg"):
+                ops.append(f"nread {k} {g} {rng.choice(EVS)}")
+            else:
+                ops.append(f"nread {k} {g}")
         elif r < 0.93:
             k = rng.randrange(len(views))
             g = rng.choice(["sum", "sum", "qps", "prevqps", "maxbucket", "minrt", "maxconc", "avgrt"])
